@@ -665,9 +665,10 @@ XPFX = {1: b'user.', 2: b'system.posix_acl_access', 3: b'system.posix_acl_defaul
 def xattr_entries(buf, start, base, limit):
     """parse entries starting at `start`; value offsets are relative to `base`. yields dict per entry"""
     off = start; out = []
-    while off + 16 <= limit:
+    while off + 4 <= limit:
+        if buf[off:off + 4] == b'\0\0\0\0': break          # IS_LAST_ENTRY: the list ends with one zero 32-bit word (value data may follow immediately)
+        if off + 16 > limit: break
         nl, idx, voff, vino, vsz, h = struct.unpack_from('<BBHIII', buf, off)
-        if nl == 0 and idx == 0 and voff == 0 and vino == 0: break
         name = bytes(buf[off + 16:off + 16 + nl])
         out.append(dict(off=off, name_len=nl, index=idx, voff=voff, vino=vino, vsize=vsz, hash=h, name=name, base=base))
         off += (16 + nl + 3) & ~3
